@@ -7,11 +7,13 @@
   curses keys ⊆ curtsies keys, multi-byte entries ASCII, ...), which `genTables_wf` re-proves over the
   regenerated tables on every build.
 
-  Domain of C20_config (the property's "every key a configuration file can name"): C-<lower-case letter a..z>,
-  M-<printable ASCII character 0x20..0x7e, the space included>, F1..F12, the documented SPECIALS, and the empty
-  (unbound) name. OUTSIDE the judged domain (reading, stated in the check's ASSUMPTIONS): upper-case C-<LETTER>
-  (`C-A` maps to `<Ctrl-A>`, which no table entry is called) and M-<non-ASCII character>. The property is
-  silent on those and on malformed names; `keymapGet` models them (KeyError etc.) and the harness ties them.
+  Domain of C20_config (the property's "every key a configuration file can name ... all letters, all printable
+  characters, all function keys, all specials"): C-<letter a..z, A..Z>, M-<printable ASCII character 0x20..0x7e>,
+  M-<non-ASCII printable character; three representatives>, F1..F12, the documented SPECIALS, and the empty
+  (unbound) name. KNOWN FINDING D42: C-<UPPER-CASE letter> and M-<non-ASCII character> map to names the decoder
+  never produces; `C20_config_partial` carries the complement of that footprint (`isD42Name`), the full statement
+  is `C20_config_full_statement`, refuted by `C20_D42_witness`. The property is silent on malformed names;
+  `keymapGet` models them (KeyError etc.) and the harness ties them.
 -/
 import Curtsies.Properties.C03
 namespace Curtsies
@@ -139,21 +141,30 @@ theorem C20_bytes (T : KeyTables) (s : List Nat) (e : Enc) (full : Bool) (k : Ke
 theorem C20_subset : ∀ e ∈ Generated.cursesNamesCps, (Generated.curtsiesNamesCps.lookup e.1).isSome := by
   decide +kernel
 
-/-- The "are multibyte unnameable sequences possible?" NotImplementedError branch of `_key_name` is unreachable
-    from `get_key`: every multi-byte table key is ASCII, hence decodable under each encoding. -/
-theorem C20_no_unnameable (T : KeyTables) (hT : T.WF) (seq : List Nat) (enc : Enc) (mode : KeyMode) (full : Bool) :
-    getKey T seq enc mode full ≠ .error .notImplementedError := by
-  intro h
-  have := getKey_cut hT seq enc mode full
-  rw [h] at this
-  simp only [cutOf] at this
-  split at this
-  · cases this
-  · split at this
-    · cases this
-    · split at this
-      · cases this
-      · split at this <;> cases this
+/-- Curses naming never raises NotImplementedError - for ANY tables: since fix c2888a4 an undecodable multi-byte
+    sequence without a curses name is called `bytes: xNN-xNN...` (`bytesName`); `_key_name` in curses mode always
+    returns a name, and `get_key` never raises NotImplementedError in any mode. -/
+theorem C20_no_unnameable (T : KeyTables) (seq : List Nat) (enc : Enc) (mode : KeyMode) (full : Bool) :
+    (∃ k, keyName T seq enc .curses = .ok k) ∧ getKey T seq enc mode full ≠ .error .notImplementedError := by
+  have hkn : ∀ m x, keyName T seq enc m = .error x → x = .unicodeDecodeError := by
+    intro m x h
+    cases m <;> simp only [keyName] at h <;> (repeat' split at h) <;> simp_all
+  refine ⟨?_, ?_⟩
+  · simp only [keyName]; (repeat' split) <;> exact ⟨_, rfl⟩
+  · intro h
+    unfold getKey at h
+    have hm : ∀ r : Except PyErr KeyVal, Except.map some r = .error .notImplementedError →
+        r = .error .notImplementedError := by
+      intro r hr; cases r <;> simp [Except.map] at hr ⊢; exact hr
+    split at h
+    · cases h
+    · split at h
+      · have := hkn _ _ (hm _ h); cases this
+      · split at h
+        · cases h
+        · split at h
+          · have := hkn _ _ (hm _ h); cases this
+          · cases h
 
 /-! ### configuration names -/
 
@@ -177,15 +188,26 @@ theorem C20_table_names_producible_findKey (T : KeyTables) (hT : T.WF) (u : List
     (h : T.curtsies.lookup u = some name) (enc : Enc) :
     findKey T enc .curtsies (u ++ []) = .ok (some (.text name, u, [])) := by
   have hu : T.isKey u = true := by simp [KeyTables.isKey, h]
-  obtain ⟨k, hk, n, hn, rfl⟩ := (C03_table T hT u hu enc .curtsies [] (by rintro ⟨_, h, _⟩; exact h rfl)).2.1
+  obtain ⟨k, hk, n, hn, rfl⟩ := (C03_table T hT u hu enc .curtsies [] (by rintro ⟨_, h, _⟩; exact h rfl)
+    (by rintro ⟨_, h, _⟩; exact h rfl)).2.1
     (Or.inl rfl)
   rw [h] at hn; cases hn
   exact hk
 
-/-- the configuration names the property quantifies over: SPECIALS, C-a..C-z, M-<0x20..0x7e>, F1..F12 -/
+/-- the configuration names the property quantifies over ("all letters, all printable characters, all function
+    keys, all specials"): SPECIALS, C-a..C-z, C-A..C-Z, M-<0x20..0x7e>, M-<a few non-ASCII printable characters:
+    U+00E9, U+00DF, U+0416>, F1..F12 -/
 def validConfigNames (specials : List (List Nat × List Nat)) : List (List Nat) :=
   specials.map (fun p => p.1) ++ (List.range 26).map (fun i => [67, 45, 97 + i]) ++
-  (List.range 95).map (fun i => [77, 45, 32 + i]) ++ (List.range 12).map (fun i => 70 :: natCps (i + 1))
+  (List.range 26).map (fun i => [67, 45, 65 + i]) ++
+  (List.range 95).map (fun i => [77, 45, 32 + i]) ++ [[77, 45, 0xE9], [77, 45, 0xDF], [77, 45, 0x416]] ++
+  (List.range 12).map (fun i => 70 :: natCps (i + 1))
+
+/-- Footprint of known finding D42: the two name shapes `C-<UPPER-CASE letter>` and `M-<non-ASCII character>`. -/
+def isD42Name : List Nat → Bool
+  | [67, 45, c] => 65 ≤ c && c ≤ 90
+  | [77, 45, c] => 128 ≤ c
+  | _ => false
 
 /-- `keymap[k]` succeeds with at least one name, each of which is a name in the curtsies table -/
 def configOk (T : KeyTables) (specials : List (List Nat × List Nat)) (k : List Nat) : Bool :=
@@ -195,15 +217,23 @@ def configOk (T : KeyTables) (specials : List (List Nat × List Nat)) (k : List 
 
 set_option maxRecDepth 100000 in
 theorem config_check : ∀ k ∈ validConfigNames Generated.configSpecialsCps,
-    configOk genTables Generated.configSpecialsCps k = true := by decide +kernel
+    isD42Name k = false → configOk genTables Generated.configSpecialsCps k = true := by decide +kernel
 
-/-- Every key a configuration file can name maps to at least one name, and every name it maps to is one the
-    decoder actually produces (for some table sequence fed whole). -/
-theorem C20_config : ∀ k ∈ validConfigNames Generated.configSpecialsCps,
+/-- FULL statement: every key a configuration file can name maps to at least one name, and every name it maps to
+    is one the decoder actually produces. FALSE for the code as it is (`C20_D42_witness`): known finding D42. -/
+def C20_config_full_statement : Prop :=
+  ∀ k ∈ validConfigNames Generated.configSpecialsCps,
+    ∃ names, keymapGet Generated.configSpecialsCps k = .ok names ∧ names ≠ [] ∧
+      ∀ n ∈ names, producible genTables n
+
+/-- What is proved: the full statement for every valid name outside D42's footprint (`isD42Name`: C-<UPPER-CASE
+    letter>, M-<non-ASCII character>). Missing: exactly those two shapes, where the code does map to names the
+    decoder never produces. -/
+theorem C20_config_partial : ∀ k ∈ validConfigNames Generated.configSpecialsCps, isD42Name k = false →
     ∃ names, keymapGet Generated.configSpecialsCps k = .ok names ∧ names ≠ [] ∧
       ∀ n ∈ names, producible genTables n := by
-  intro k hk
-  have h := config_check k hk
+  intro k hk hd
+  have h := config_check k hk hd
   simp only [configOk] at h
   split at h
   · rename_i names hn
@@ -217,11 +247,86 @@ theorem C20_config : ∀ k ∈ validConfigNames Generated.configSpecialsCps,
     rw [C20_table_names_producible_findKey genTables genTables_wf e.1 e.2 h2 .utf8, h1]
   · cases h
 
+theorem findKeyLoop_result_getKey {T : KeyTables} (enc : Enc) (mode : KeyMode) (un : List Nat) :
+    ∀ cur k c r, findKeyLoop T enc mode cur un = .ok (some (k, c, r)) →
+      ∃ full, getKey T c enc mode full = .ok (some k) := by
+  induction un with
+  | nil => intro cur k c r h; simp only [findKeyLoop] at h; split at h <;> simp at h
+  | cons b rest ih =>
+    intro cur k c r h
+    simp only [findKeyLoop] at h
+    split at h
+    · simp at h
+    · rename_i k' hg
+      simp at h
+      obtain ⟨rfl, rfl, rfl⟩ := h
+      exact ⟨_, hg⟩
+    · exact ih _ k c r h
+
+theorem getKey_some_keyName {T : KeyTables} {s : List Nat} {enc : Enc} {mode : KeyMode} {full : Bool} {k : KeyVal}
+    (h : getKey T s enc mode full = .ok (some k)) : keyName T s enc mode = .ok k := by
+  have hm : ∀ r : Except PyErr KeyVal, Except.map some r = .ok (some k) → r = .ok k := by
+    intro r hr; cases r <;> simp [Except.map] at hr ⊢; exact hr
+  unfold getKey at h
+  split at h
+  · cases h
+  · split at h
+    · exact hm _ h
+    · split at h
+      · cases h
+      · split at h
+        · exact hm _ h
+        · cases h
+
+/-- whatever name the decoder produces for a table sequence (any encoding, any continuation) is a name in the
+    curtsies table -/
+theorem producible_in_table (T : KeyTables) (hT : T.WF) (n : List Nat) (h : producible T n) :
+    ∃ e ∈ T.curtsies, e.2 = n := by
+  obtain ⟨u, enc, rest, hu, hf⟩ := h
+  obtain ⟨full, hg⟩ := findKeyLoop_result_getKey enc .curtsies (u ++ rest) [] _ _ _ hf
+  have hk := getKey_some_keyName hg
+  obtain ⟨k', hk', n', hn', rfl⟩ := keyName_isKey hT hu enc .curtsies
+  rw [hk'] at hk
+  have e : n' = n := by simpa using hk
+  subst e
+  exact ⟨(u, n'), lookup_mem hn', rfl⟩
+
+set_option maxRecDepth 100000 in
+/-- Known finding D42, witnessed on the model: `C-A` and `M-é` are configuration names in the property's domain
+    ("all letters, all printable characters"); `keymap` maps them to `<Ctrl-A>` and to `<Esc+é>`, `<Meta-é>`;
+    no table sequence is called any of these, so the decoder never produces them and the full statement is
+    false. -/
+theorem C20_D42_witness :
+    [67, 45, 65] ∈ validConfigNames Generated.configSpecialsCps ∧
+    keymapGet Generated.configSpecialsCps [67, 45, 65] = .ok [[60, 67, 116, 114, 108, 45, 65, 62]] ∧
+    ¬ producible genTables [60, 67, 116, 114, 108, 45, 65, 62] ∧
+    [77, 45, 0xE9] ∈ validConfigNames Generated.configSpecialsCps ∧
+    keymapGet Generated.configSpecialsCps [77, 45, 0xE9] =
+      .ok [[60, 69, 115, 99, 43, 0xE9, 62], [60, 77, 101, 116, 97, 45, 0xE9, 62]] ∧
+    ¬ producible genTables [60, 69, 115, 99, 43, 0xE9, 62] ∧
+    ¬ C20_config_full_statement := by
+  have t1 : ∀ e ∈ genTables.curtsies, e.2 ≠ [60, 67, 116, 114, 108, 45, 65, 62] := by decide +kernel
+  have t2 : ∀ e ∈ genTables.curtsies, e.2 ≠ [60, 69, 115, 99, 43, 0xE9, 62] := by decide +kernel
+  have p1 : ¬ producible genTables [60, 67, 116, 114, 108, 45, 65, 62] := by
+    intro h; obtain ⟨e, he, h2⟩ := producible_in_table genTables genTables_wf _ h; exact t1 e he h2
+  have p2 : ¬ producible genTables [60, 69, 115, 99, 43, 0xE9, 62] := by
+    intro h; obtain ⟨e, he, h2⟩ := producible_in_table genTables genTables_wf _ h; exact t2 e he h2
+  have m1 : [67, 45, 65] ∈ validConfigNames Generated.configSpecialsCps := by decide +kernel
+  have k1 : keymapGet Generated.configSpecialsCps [67, 45, 65] = .ok [[60, 67, 116, 114, 108, 45, 65, 62]] := by
+    decide +kernel
+  refine ⟨m1, k1, p1, by decide +kernel, by decide +kernel, p2, ?_⟩
+  intro h
+  obtain ⟨names, hn, _, hp⟩ := h _ m1
+  rw [k1] at hn
+  cases hn
+  exact p1 (hp _ (by simp))
+
 /-- An unbound key (the empty name) maps to nothing - for any SPECIALS table. -/
 theorem C20_config_unbound (specials : List (List Nat × List Nat)) : keymapGet specials [] = .ok [] := rfl
 
-/-- Non-vacuity: `C-a`, `M-x`, `M- `, `F12`, `C-i` (SPECIALS) are among the valid names and map as expected. -/
-example : [67, 45, 97] ∈ validConfigNames Generated.configSpecialsCps ∧
+/-- Non-vacuity: `C-a`, `M-x`, `M- `, `F12`, `C-i` (SPECIALS) are among the valid names, outside D42's footprint, and
+    map as expected. -/
+example : [67, 45, 97] ∈ validConfigNames Generated.configSpecialsCps ∧ isD42Name [67, 45, 97] = false ∧
     [77, 45, 32] ∈ validConfigNames Generated.configSpecialsCps ∧
     keymapGet Generated.configSpecialsCps [77, 45, 32] = .ok [cpsOf "<Esc+SPACE>", cpsOf "<Meta- >"] ∧
     keymapGet Generated.configSpecialsCps [67, 45, 97] = .ok [cpsOf "<Ctrl-a>"] ∧
